@@ -1,5 +1,6 @@
 import Dcg.Driver.Proto
 import Dcg.Model.Resolver
+import Dcg.Model.ResolverWorklist
 /-!
 Line-protocol handlers for `Dcg.Model.Resolver` (C06).
 
@@ -79,7 +80,34 @@ def modModel? : SX → Option ModModel
     let p ← p.str?; let c ← c.str?; let d ← d.str?; pure { path := p, cls := c, dupCls := d }
   | _ => none
 
+/-- `(ptr (ref…))` rows of the document graph -/
+def docRow? : SX → Option (Str × List Str)
+  | .list [p, refs] => do
+    let p ← p.str?; let refs ← refs.strs?; pure (p, refs)
+  | _ => none
+
+open Dcg.Model.ResolverWorklist in
+/-- `res.worklist ((ptr (ref…))…) (rootRef…) (definitionPtr…)`: the prelude of `_parse_file` (root object,
+then every definition that is not loaded yet) followed by the reserved-reference loop with fuel
+`|all pointers| + 1`. Reply `ok (reserved…) (loaded…)`, `missing <ptr>` or `outoffuel`. -/
+def worklist (rows : List (Str × List Str)) (rootRefs defs : List Str) : String :=
+  let doc : Ptr → Option (List Ptr) := fun p => rows.lookup p
+  let allPtrs := (rows.map (·.1) ++ rows.flatMap (·.2) ++ rootRefs).eraseDups
+  let st0 := load { loaded := [], reserved := [] } ['#'] rootRefs
+  match round doc defs st0 with
+  | none => "missing-definition"
+  | some st1 =>
+    match loop doc (allPtrs.length + 1) st1 with
+    | .done st => "ok " ++ encStrs st.reserved ++ " " ++ encStrs st.loaded
+    | .missing p => "missing " ++ encodeStr p
+    | .outOfFuel => "outoffuel"
+
 def handlers : List (String × Handler) := [
+  ("res.worklist", fun
+    | [.list rows, rr, defs] => match rows.mapM docRow?, rr.strs?, defs.strs? with
+      | some rows, some rr, some defs => worklist rows rr defs
+      | _, _, _ => "err args"
+    | _ => "err args"),
   ("res.run", fun
     | [sfx, ss, excl, table, .list ops] =>
       match sfx.str?, ss.str?, excl.strs?, (match table with | .list rows => rows.mapM singRow? | _ => none),
